@@ -880,22 +880,6 @@ def st_subject(label, make, n, kind, start, seed, container, calls, fit=ST_FIT, 
                    other_fit=lambda t, d: t.fit(d["Z_other"]), kf_data=kf_data)
 
 
-def kf_imputer_random_frame(before, after, changed):
-    """Imputer(method='random') on a DataFrame assigns the imputed columns into the caller's frame: narrow match --
-    same labels and dtypes, every cell that held a value is bit-identical, only cells that were NaN differ"""
-    for k in changed:
-        b, a = before[k], after[k]
-        if not (isinstance(b, pd.DataFrame) and isinstance(a, pd.DataFrame)):
-            return None
-        if snap(b.index) != snap(a.index) or list(b.columns) != list(a.columns) or list(b.dtypes) != list(a.dtypes):
-            return None
-        bv, av = b.to_numpy(dtype=float), a.to_numpy(dtype=float)
-        held = ~np.isnan(bv)
-        if not np.array_equal(bv[held], av[held]) or np.isnan(av[~held]).any():
-            return None
-    return "KF:imputer-random-writes-imputed-values-into-caller-frame"
-
-
 def series_transformer_subjects(tier, seed):
     from sklearn.preprocessing import MinMaxScaler, StandardScaler
     from sktime.forecasting.naive import NaiveForecaster
@@ -978,9 +962,7 @@ def series_transformer_subjects(tier, seed):
                         out.append(st_subject(f"Imputer({kw}{', forecaster=Naive(drift)' if method == 'forecaster' else ''})"
                                               f" on data with NaN at positions {na}", mk, n, kind, start, seed + i,
                                               container, st_calls(False, other=thorough or method == "random"),
-                                              nan_at=na, fit=ST_FIT_TRANSFORM if i % 3 == 0 else ST_FIT,
-                                              kf_data=kf_imputer_random_frame
-                                              if method == "random" and container == "frame" else None))
+                                              nan_at=na, fit=ST_FIT_TRANSFORM if i % 3 == 0 else ST_FIT))
     # placeholder for missing values other than NaN
     for container in ("series", "frame"):
         for (n, kind, start) in pick(1):
@@ -1298,7 +1280,7 @@ GROUPS = (("forecaster", "forecaster_subjects"), ("series", "series_transformer_
           ("panel", "panel_transformer_subjects"), ("classifier", "classifier_subjects"))
 
 
-def _run_all(R, tier, seed, name_filter=None, limit=None):
+def _run_all(R, tier, seed, name_filter=None, limit=None, protocol_checks=True):
     import joblib
     run = Runner(R, seed)
     with joblib.parallel_backend("threading"):
@@ -1313,7 +1295,7 @@ def _run_all(R, tier, seed, name_filter=None, limit=None):
                     run.run(S, tier)
                 except Exception as e:        # the protocol itself must not stop the run
                     R.check(K_RAISE, False, f"{S.name}: protocol stopped by {_err(e)}")
-        if name_filter is None or name_filter("forecaster predict horizon fh refit"):
+        if protocol_checks:
             forecaster_protocol_checks(R, tier, seed)
 
 
@@ -1340,16 +1322,22 @@ def replay(rec):
     }
     wanted = [fam for fam, keys in families.items() if any(k in text for k in keys)]
     R = Recorder("replay")
+    about_fh = any(w in text for w in ("_set_fh", "horizon", "refit", "second fit", "stored fh"))
     if wanted and wanted != ["pickle"]:
         def flt(name):
             low = name.lower()
             return any(w in low for w in wanted if w != "pickle")
-        _run_all(R, "quick", seed, name_filter=flt, limit=12)
+        _run_all(R, "quick", seed, name_filter=flt, limit=12, protocol_checks=about_fh)
     else:
         def flt(name):
             low = name.lower()
             return any(w in low for w in ("hampel", "imputer({'method': 'random'", "naiveforecaster({'strategy': 'mean'",
                                           "bossensemble(max", "deseasonalizer(sp=4", "sfa("))
-        _run_all(R, "quick", seed, name_filter=flt, limit=6)
+        _run_all(R, "quick", seed, name_filter=flt, limit=6, protocol_checks=about_fh)
+    # the triaged defects of the unchanged tree only count when the record is about them
+    relevant = {"KF:boss-ensembles-reject-n_jobs-None": "n_jobs" in text,
+                "KF:predict-without-fh-returns-horizon-of-previous-predict": about_fh,
+                "KF:second-fit-without-fh-raises": about_fh}
+    R.failures = [f for f in R.failures if relevant.get(f["key"], True)]
     return {"reproduced": bool(R.failures), "detail": R.failures[:3],
             "input": {"families": wanted or "representative subset", "seed": seed, "cases": R.cases}}
